@@ -76,7 +76,7 @@ class ONIOMProblemDecomposition(ProblemDecomposition):
         for fragment in self.fragments:
             # Case when no atom are selected -> whole system.
             if fragment.selected_atoms is None:
-                fragment.geometry = self.geometry
+                fragment.geometry = list(self.geometry)
             # Case where an int is detected -> first n atoms.
             elif type(fragment.selected_atoms) is int:
                 fragment.geometry = self.geometry[:fragment.selected_atoms]
